@@ -122,8 +122,27 @@ def loops_r3(maxd):
      ],
     }
 
-def compose(fns, maxd=None):
+def inv_value_loops(maxd):
+    """bn_mod_inv_bin with the textbook invariant  x1 * a == u, x2 * a == v (mod m)  added (a = entry value of bn)"""
+    base = loops_r3(maxd)["bn_mod_inv_bin"]
+    A, M = VALP("bn", maxd), VALP("m", maxd)
+    U, V, X1, X2 = (VALS(x, maxd) for x in ("u", "v", "x1", "x2"))
+    cong1 = "((%s * %s) %% %s == %s %% %s)" % (X1, A, M, U, M)
+    cong2 = "((%s * %s) %% %s == %s %% %s)" % (X2, A, M, V, M)
+    odd = "((%s & 1ul) == 1ul && %s >= 2ul)" % (M, M)
+    out = []
+    for e, extra in zip(base, (cong1 + " && " + odd, cong2 + " && " + odd, cong1 + " && " + cong2 + " && " + odd)):
+        e = dict(e)
+        e["invariants"] = e["invariants"] + " && " + extra
+        if "bn,bn_mod_inv_bin::bn" not in e["symbol_map"]:
+            e["symbol_map"] += ";bn,bn_mod_inv_bin::bn"
+        out.append(e)
+    return out
+
+def compose(fns, maxd=None, variant=None):
     tbl = dict(LOOPS)
     if maxd:
         tbl.update(loops_r3(maxd))
+    if variant == "inv_value":
+        tbl["bn_mod_inv_bin"] = inv_value_loops(maxd)
     return {"functions": [{fn: tbl[fn]} for fn in fns]}
